@@ -227,7 +227,7 @@ pub fn run_random(args: &Args, rep: &mut Report) {
 
 // ------------------------------------------------------------------ C08
 
-const SHAPES: [&str; 18] = ["", "-", "--", "---", "-a", "-ab", "-é€", "-𐍈a", "-a-", "--a", "--é", "---x", "a", "a-b", "é", " a", "-h", "--help"];
+const SHAPES: [&str; 20] = ["", "-", "--", "---", "-a", "-ab", "-é€", "-𐍈a", "-a-", "--a", "--é", "---x", "a", "a-b", "é", " a", "-h", "--help", "-語￥", "----"];
 
 fn real_classify(tokens: &[String]) -> Vec<Item> {
     let raw = tokens.join("\0");
@@ -273,12 +273,12 @@ fn check_tokens(tokens: &[String], rep: &mut Report, args: &Args, case: u64) {
 pub fn run_c08_direct(args: &Args, rep: &mut Report) {
     // exhaustive: all lists of <= 4 (quick) / <= 5 (thorough) tokens over the 18 shapes; chunk = first token
     let bound = if args.thorough { 5 } else { 4 };
-    run_cases(args, "C08", 19, rep, &mut |c, rep| {
+    run_cases(args, "C08", SHAPES.len() as u64 + 1, rep, &mut |c, rep| {
         if !mine(args, c) {
             rep.cases -= 1;
             return;
         }
-        if c == 18 {
+        if c == SHAPES.len() as u64 {
             check_tokens(&[], rep, args, c);
             rep.distinct_disjoint += 1;
             return;
@@ -305,13 +305,13 @@ pub fn run_c08_direct(args: &Args, rep: &mut Report) {
 pub fn run_c08_random(args: &Args, rep: &mut Report) {
     let total: u64 = if args.thorough { 2_000_000 } else { 80_000 };
     let n = args.scaled(total) / args.nshards.max(1);
-    const P: [&str; 6] = ["-", "a", "é", "€", "𐍈", " "];
+    const P: [&str; 9] = ["-", "a", "é", "€", "𐍈", " ", "語", "￥", "\u{10FFFD}"];
     run_cases(args, "C08", n, rep, &mut |idx, rep| {
         let mut rng = Rng::derive(args.seed ^ 0xC08, args.shard, idx);
         let list: Vec<String> = (0..rng.below(13))
             .map(|_| {
                 let k = rng.below(6);
-                (0..k).map(|_| P[rng.weighted(&[8, 5, 3, 2, 2, 1])]).collect::<String>()
+                (0..k).map(|_| P[rng.weighted(&[16, 10, 6, 4, 4, 2, 2, 2, 1])]).collect::<String>()
             })
             .collect();
         check_tokens(&list, rep, args, idx);
@@ -359,5 +359,39 @@ pub fn run_c08_random(args: &Args, rep: &mut Report) {
                 report(rep, args, "C08", "classify", "end-to-end", idx, list.len(), J::s(&line), format!("typed {:?}: handler received {:?}, expected items {:?}", line, rig.proc.log, items));
             }
         }
+    });
+}
+
+
+/// every scalar value as a short option, alone, inside a cluster, as a long option name and as a value
+pub fn run_c08_scalars(args: &Args, rep: &mut Report) {
+    const CHUNK: u32 = 0x1000;
+    let chunks = (0x110000 / CHUNK) as u64;
+    run_cases(args, "C08", chunks, rep, &mut |c, rep| {
+        if !mine(args, c) {
+            rep.cases -= 1;
+            return;
+        }
+        let lo = c as u32 * CHUNK;
+        let mut n = 0u64;
+        for u in lo..lo + CHUNK {
+            let ch = match char::from_u32(u) {
+                Some(ch) if u >= 0x20 && u != 0x7f => ch,
+                _ => continue,
+            };
+            n += 1;
+            let lists: [Vec<String>; 2] = [vec![format!("-{}", ch), format!("-a{}b", ch)], vec![format!("--{}", ch), format!("{}", ch), "--".into(), format!("-{}", ch)]];
+            for l in lists.iter() {
+                let want = ref_classify(l);
+                let got = real_classify(l);
+                rep.evaluations += 1;
+                if got != want {
+                    report(rep, args, "C08", "classify", &format!("scalar-{}byte", ch.len_utf8()), c, 1, J::s(format!("U+{:04X}", u)), format!("tokens {:?} classified as {:?}, the statement requires {:?}", l, got, want));
+                    break;
+                }
+            }
+        }
+        rep.distinct_disjoint += n;
+        rep.count_n("c08.scalars", n);
     });
 }
